@@ -586,12 +586,12 @@ Definition tstep (sh : mshared) (th : mthread) : mshared * mthread * list mevent
   | KeyW k =>
       match fileno_of sh k with
       | Some idx => (sh, mkT m (Prim idx (AL (LcOW true (Some k)) (entry MIdle OpLX))) (cur th) (scr th), [])
-      | None => (sh, mkT m (StuckT 0%N MIdle) (cur th) (scr th), [MCrash])
+      | None => (sh, mkT m (StuckP 0%N MIdle) (cur th) (scr th), [MCrash])
       end
   | KeyR k =>
       match fileno_of sh k with
       | Some idx => (sh, mkT m (Prim idx (AL (LcOR k) (entry MIdle OpLS))) (cur th) (scr th), [])
-      | None => (sh, mkT m (StuckT 0%N MIdle) (cur th) (scr th), [MCrash])
+      | None => (sh, mkT m (StuckP 0%N MIdle) (cur th) (scr th), [MCrash])
       end
   | KeyF k =>
       match fileno_of sh k with
